@@ -36,6 +36,18 @@ fixed("C03", "d48acaa", ["c03:%s:dial:refused:reported-success" % m for m in ("L
       "DialAsync to a closed port: callback invoked with err == nil, then the connection is closed with 'connection refused'")
 fixed("C18", "71ade83", ["c18:stop-hang (seen as 20 s Stop timeouts in C01/C05 harnesses)"],
       "Stop overtaking a freshly started poller goroutine: the loop's prologue resets p.shutdown to false, Stop blocks forever in g.Wait()")
+fixed("C18", "d9247f0", ["c18:core:tcp:stop-hang", "c18:core:unix:stop-hang", "c18:http:mixed:stop-hang", "c18:http:nonblocking:stop-hang"],
+      "a connection accepted/added around Stop's one-time snapshot of the connection table is never closed: Stop blocks forever in wgConn.Wait() (delay point acceptor.afterAccept, or clients connecting during Stop)")
+fixed("C18", "b18b811", ["c18:core:tcp:close-notifications-missing-at-stop-return", "c18:core:unix:close-notifications-missing-at-stop-return"],
+      "connection accepted just before the listener closed: its close notification is delivered after Stop returned")
+fixed("C18", "79b310d", ["c18:http:blocking:connections-left-open-after-stop", "c18:http:mixed:connections-left-open-after-stop"],
+      "nbhttp Engine.Stop leaves IOModBlocking connections (and their reader goroutines) open")
+fixed("C18", "8fa605f", ["c18:http:nonblocking:connections-left-open-after-stop"],
+      "HTTP listener goroutine drops a connection accepted after the shutdown flag was set without closing it")
+fixed("C18", "53fc0f1", ["c18:http:mixed:connections-left-open-after-stop"],
+      "ListenerMux.Stop leaves connections queued in the ChanListeners open")
+fixed("C18", "fd6ab73", ["crash:fatal error: concurrent map iteration and map write"],
+      "UDP engine: Stop closing the listener while sessions are closed from other goroutines: udpConn.conns iterated without the lock its writers use; the process dies")
 
 # ---- inbound
 fixed("C02", "0f4f1ee", ["c02:%s:%s:async:default:spin-no-delivery" % (n, m) for n in ("tcp", "unix") for m in ("ET", "ONESHOT")] +
@@ -68,6 +80,18 @@ fixed("C08", "da4608a", ["c08:framing-accepted:missing-cr:chunk-size-line", "c08
       "bare LF in a chunk-size line skipped as chunk extension ('5\\nAAAAA\\r\\n' read as a size line)")
 fixed("C08", "d6eaa4d", ["c08:framing-accepted:missing-cr:trailer-line"],
       "bare LF inside a trailer line accepted ('A: 1\\nB: 2' delivered as one trailer)")
+
+# ---- WebSocket
+fixed("C12", "ffd52c5", ["c12:recv:empty-message-not-delivered", "c12:loop:empty-message-not-delivered"],
+      "empty text/binary message (frames 81 00 / 82 80 k k k k): OnMessage never called")
+fixed("C13", "12e06aa", ["c13:continuation-without-start:continuation-empty:not-failed"],
+      "stray continuation frame with FIN and empty payload (80 00) accepted silently")
+fixed("C13", "40d7b26", ["c13:illegal-close-code:1015:accepted-and-echoed"],
+      "close frame with code 1015 (88 02 03 f7) accepted and echoed")
+fixed("C13", "ffd52c5", ["c13:panic-recovered:compression-negotiated:runtime-error-invalid-memory-address-or-nil-pointer-dereference"],
+      "compression negotiated, empty compressed message (c1 00): nil dereference in Parse (recovered)")
+fixed("C15", "8cf2a9b", ["c15:compressed:over-limit-message-delivered", "c15:compressed:message-of-exactly-limit-size-refused"],
+      "MessageLengthLimit vs. permessage-deflate: message inflating to limit+1..cap delivered; message inflating to exactly the limit refused when the pooled capacity equals the limit")
 
 json.dump(F, open("/verif/known_findings.json", "w"), indent=1)
 print("wrote %d entries (%d known)" % (len(F), sum(1 for f in F if f["status"] == "known")))
